@@ -59,6 +59,10 @@ class System:
             self.ids.append(inv.invocation_id)
         context.clear_runner_context(app.app_id)
         r1 = world.ctx("r1")
+        # a runner that stopped sending heartbeats long ago (older than the dead-runner timeout): its record is still
+        # part of the system (it may come back), whatever a page chooses to show
+        o.register_runner_heartbeats(["gone1"], can_run_atomic_service=True)
+        self.clock.advance(3 * 3600.0)
         o.register_runner_heartbeats(["r1"], can_run_atomic_service=True)
         o.register_runner_heartbeats(["w1"])
         # move some invocations through their lifecycle (the messages of the others stay queued)
